@@ -240,6 +240,9 @@ pub struct ClientSpec {
     /// Client Information fields other than the locale: (view distance, chat mode 0-2, main hand 0-1, particle status 0-2, displayed skin parts)
     #[serde(default = "default_info")]
     pub info: (i8, i32, i32, i32, u8),
+    /// a status client takes this long between the Status Response and its Ping
+    #[serde(default)]
+    pub ping_delay_ns: u64,
     /// seed for the client's own padding / random tokens
     pub rng: u64,
 }
@@ -283,6 +286,7 @@ impl ClientSpec {
             early_ack: false,
             len_pad: 0,
             info: default_info(),
+            ping_delay_ns: 0,
             rng: rng.next_u64(),
         }
     }
@@ -745,7 +749,11 @@ impl<'a> Engine<'a> {
             "StatusResponse" => {
                 if reactive {
                     let p = self.spec.ping_payload.to_be_bytes();
-                    self.send_packet("Ping", 0x01, &p);
+                    if self.spec.ping_delay_ns == 0 {
+                        self.send_packet("Ping", 0x01, &p);
+                    } else {
+                        self.at(self.spec.ping_delay_ns, Action::Send { kind: "Ping", id: 0x01, body: p.to_vec() });
+                    }
                 }
             }
             "Pong" => self.end(),
